@@ -301,13 +301,23 @@ func (w *Worker) addViolation(v Violation) {
 func (w *Worker) decide(e *Exec, q *Term) Result {
 	conds := append(append([]*Term{}, e.pc...), q)
 	w.stats.DecideQueries++
+	w.lastModel = nil
+	used := w.solver
+	w.solver.Declare(e.inputs)
 	r := w.solver.Check(conds)
 	if r == Unknown {
 		for _, s := range w.aux {
+			s.Declare(e.inputs)
 			r = s.Check(conds)
 			if r != Unknown {
+				used = s
 				break
 			}
+		}
+	}
+	if r == Sat {
+		if m, err := used.Values(e.bvInputs()); err == nil {
+			w.lastModel = m
 		}
 	}
 	switch r {
@@ -591,4 +601,13 @@ func RunHarness(g *Engine, h *HarnessRun) (*HarnessResult, error) {
 	}
 	sort.Slice(res.Violations, func(i, j int) bool { return res.Violations[i].ID < res.Violations[j].ID })
 	return res, nil
+}
+
+// lookupMethod is a non-panicking variant of prog.LookupMethod.
+func (g *Engine) lookupMethod(T types.Type, pkg *types.Package, name string) *ssa.Function {
+	sel := g.prog.MethodSets.MethodSet(T).Lookup(pkg, name)
+	if sel == nil {
+		return nil
+	}
+	return g.prog.MethodValue(sel)
 }
